@@ -61,6 +61,7 @@ def behaviours_from_sim(ctx, files):
                 s['name'] = conc_name(last['name'], v)
             if last['op'] == 'write':
                 s['data'] = last['data']
+                s['style'] = last['style']
             if last['op'] == 'read':
                 r = st['res']
                 s['exists'] = r['ok']
@@ -84,6 +85,8 @@ def run(ctx):
         'the generators never write or read a name that conflicts with a stored one (observation, not reported: reading "a" while "a/b" is '
         'stored yields an is-a-directory read error instead of not-exist)',
         'listing order is not part of the property: results are compared as sets, duplicates are reported',
+        'an object is written in one of three ways: Write calls (two halves; two empty Writes for empty data), NewWriter+Close with no Write call '
+        '(empty data only), storage.Copy from a source object in another FS bucket; the result must be the same',
         'service names: the upload name is observed through the real upload handler chain, merge and chart names through the real worker '
         'handlers; only the location of what they create is decided here (C12 / C13 decide the rest)',
     ]
@@ -106,7 +109,7 @@ def run(ctx):
     if not behs:
         raise Infra('no behaviours from TLC simulate')
     ctx.sample({'kind': 'behaviour', 'buckets': behs[0]['buckets'],
-                'ops': [[s['op'], s.get('b', ''), s.get('name', s.get('prefix', '')), s.get('data', '')] for s in behs[0]['steps'][:10]]})
+                'ops': [[s['op'], s.get('b', ''), s.get('name', s.get('prefix', '')), s.get('data', ''), s.get('style', '')] for s in behs[0]['steps'][:10]]})
     recs, rc, out = ctx.run_harness(PKG, 'TestVerifC18Replay', inp={'datas': DATAS, 'behaviours': behs}, module_dir='godev', timeout=1500)
     summ = gu.summary_of(recs, out, 'C18 replay')
     ctx.cov['behaviours_replayed'] = summ['behaviours']
@@ -114,7 +117,7 @@ def run(ctx):
     ctx.cov['evaluations'] += summ['steps']
     ctx.cov['traces_validated_against_impl'] += summ['matched']
     for m in [x for x in recs if x.get('kind') == 'mismatch']:
-        ctx.violation('C18:fsbucket:%s' % m.get('what'), m,
+        ctx.violation('C18:fsbucket:%s%s' % (m.get('what'), ':' + m['style'] if m.get('op') == 'write' and m.get('style') else ''), m,
                       'behaviour %s step %s (%s %s %s): real FSBucket differs from Storage.tla: %s' % (
                           m.get('id'), m.get('step'), m.get('op'), m.get('b'), m.get('name') or m.get('prefix'), json.dumps(m)[:700]))
 
@@ -146,6 +149,8 @@ def run(ctx):
             what = bad.get('op') if bad else '?'
             if bad and not bad.get('ok', True):
                 what += '-error'
+            if bad and bad.get('op') == 'write':
+                what += ':' + str(bad.get('style'))
             if bad is not None:
                 bad = {k: (v if k not in ('disk', 'names') else v[:12]) for k, v in bad.items()}
             ctx.violation('C18:fsbucket:observed:%s' % what, {'obs': bad, 'expected_state': plain_objs(st.get('objs'))},
@@ -159,7 +164,7 @@ def run(ctx):
     ctx.cov['observations_validated'] = summ['ops']
     ctx.cov['evaluations'] += summ['ops']
     first = [o for o in obs if o['op'] != 'reset'][:3]
-    ctx.sample({'kind': 'observed-history-prefix', 'ops': [{k: o.get(k) for k in ('op', 'b', 'text', 'data', 'exists') if k in o} for o in first]})
+    ctx.sample({'kind': 'observed-history-prefix', 'ops': [{k: o.get(k) for k in ('op', 'b', 'text', 'data', 'style', 'exists') if k in o} for o in first]})
 
     # ---- 4. names built by the services resolve inside their bucket ----------
     service_names(ctx)
